@@ -7,6 +7,7 @@ MODULES = [
     "RotoV.Lemmas.TcRules", "RotoV.Lemmas.UnifyTc", "RotoV.Lemmas.Typing", "RotoV.Lemmas.TypingAux", "RotoV.Lemmas.TypingMono", "RotoV.Lemmas.TypingProg",
     "RotoV.Model.Typing", "RotoV.Model.TcRules", "RotoV.Model.UnifyTc",
     "RotoV.Model.TcInfer", "RotoV.Model.TcInferPinned", "RotoV.Lemmas.TcInferUnify", "RotoV.Lemmas.TcInferSound", "RotoV.Lemmas.TcInferSoundMain", "RotoV.Lemmas.TcInferObls", "RotoV.Lemmas.TcInferProg", "RotoV.Model.TcInferSem",
+    "RotoV.Model.TcValueCycle", "RotoV.Model.TcValueCyclePinned", "RotoV.Lemmas.TcValueCycle", "RotoV.Model.Tarjan", "RotoV.Lemmas.Tarjan",
 ]
 
 
@@ -19,7 +20,7 @@ def search(ctx):
 
 
 def run(ctx):
-    ctx.extract(["c07facts", "c07arms"])
+    ctx.extract(["c07facts", "c07arms", "c07cycle"])
     ctx.prove(PROPS, extra_modules=MODULES)
     if ctx.build_harness("c07"):
         ctx.harness("c07", ["run", ctx.seed, ctx.tier], timeout=3000)
